@@ -84,8 +84,15 @@ def paths(cvxopt, PR, pr, qp):
         tag = ' sparse' if sparse else ''
         if not qp:
             out.append(('conelp' + tag, lambda c=c, G=G, h=h, A=A, b=b: quiet(solvers.conelp, c, G, h, dims, A, b, options=o)))
+            if not sparse:
+                # more steps of iterative refinement than the default (a documented option that must not change the answer)
+                o2 = {'show_progress': False, 'refinement': 2 + (len(pr.c) % 2)}
+                out.append(('conelp refinement=%d' % o2['refinement'], lambda c=c, G=G, h=h, A=A, b=b, o2=o2: quiet(solvers.conelp, c, G, h, dims, A, b, options=o2)))
         Pm = P if P is not None else (spmatrix([], [], [], (pr.n, pr.n)) if sparse else matrix(0.0, (pr.n, pr.n)))
         out.append(('coneqp' + tag, lambda c=c, G=G, h=h, A=A, b=b, Pm=Pm: quiet(solvers.coneqp, Pm, c, G, h, dims, A, b, options=o)))
+        if sparse:
+            o3 = {'show_progress': False, 'refinement': 2 + (len(pr.c) % 2)}
+            out.append(('coneqp refinement=%d' % o3['refinement'], lambda c=c, G=G, h=h, A=A, b=b, Pm=Pm, o3=o3: quiet(solvers.coneqp, Pm, c, G, h, dims, A, b, options=o3)))
     c, G, h, A, b, P = PR.to_cvx(cvxopt, pr)
     if not qp:
         if not hasQ and not hasS:
